@@ -352,6 +352,39 @@ fn perturbations(e: &Entry, v: &dyn DynValue, enc: &[u8], budget_us: usize, ctx:
             buf[start..start + n].copy_from_slice(&enc[start..start + n]);
         }
     }
+    // --- layout alternatives: every 4-byte window that reads as the length L of
+    // what follows it (p + 4 + L <= len) is a candidate length prefix; the same
+    // field laid out differently — prefix removed and four zero bytes (or the
+    // prefix itself) placed BEHIND the field, or the field moved in front of its
+    // prefix — must not be accepted as another encoding of the value
+    if len >= 5 {
+        let mut windows: Vec<(usize, usize)> = vec![];
+        for p in 0..len - 4 {
+            let l = u32::from_be_bytes([enc[p], enc[p + 1], enc[p + 2], enc[p + 3]]) as usize;
+            if l >= 1 && p + 4 + l <= len {
+                windows.push((p, l));
+            }
+        }
+        let take = if heavy { 2 } else { 6 };
+        let step = (windows.len() / take).max(1);
+        for (p, l) in windows.iter().step_by(step).take(take) {
+            let (p, l) = (*p, *l);
+            for tail in [[0u8; 4], [enc[p], enc[p + 1], enc[p + 2], enc[p + 3]]] {
+                let mut alt = Vec::with_capacity(len);
+                alt.extend_from_slice(&enc[..p]);
+                alt.extend_from_slice(&enc[p + 4..p + 4 + l]);
+                alt.extend_from_slice(&tail);
+                alt.extend_from_slice(&enc[p + 4 + l..]);
+                if alt != enc {
+                    decodes += 1;
+                    if check_bytes(e, &alt, "length prefix moved behind its field")? {
+                        accepted += 1;
+                    }
+                }
+            }
+            ctx.label("perturbation:length-prefix-relocated");
+        }
+    }
     // --- truncations
     let cuts: Vec<usize> = if len <= 96 && !heavy {
         (0..len).collect()
@@ -690,6 +723,7 @@ pub fn run_main() {
                     "perturbed-encodings-accepted",
                     "g1:computed-infinity",
                     "g2:computed-infinity",
+                    "perturbation:length-prefix-relocated",
                 ],
             },
             SubCheck {
